@@ -1880,6 +1880,11 @@ def evaluate_jit_vs_source(ctx, spec, axes, res_j, res_s):
         ctx.count(count_key(spec, "jit_vs_source", what=op), nontrivial=fs["kind"] != "constant", leg="jit_vs_source")
         ctx.hist("compiled", f"{op}/{spec['grid']['cls']}/{len(axes)}ax" + ("/per" if any(a[1] for a in axes) else ""))
         oj, os_ = res_j[op], res_s[op]
+        if op == "to_grid" and any(classify(axes, p_) == "boundary" for p_ in res_s.get("grid2_points", [])):
+            # a target point within round-off of the domain boundary: membership itself is ill-conditioned there (the
+            # statement excludes such points) and the compiled code may round the comparison the other way
+            ctx.hist("observation", "to_grid with a target point within round-off of the boundary: modes not compared")
+            continue
         if op == "intdata" and (os_.get("int_result_kind", "f") in "iu" or oj.get("int_result_kind", "f") in "iu"):
             # with an integer dtype the unchanged library truncates the interpolant (reported by the leg intdata_int);
             # truncated values are not compared between the modes (a value within round-off of an integer may be cut
